@@ -1,0 +1,16 @@
+//! Verification hooks, compiled only with `--cfg rigetti_quil_rs_verif`.
+//!
+//! These add observation points for crate-private stages (the lexer); they change no behaviour.
+
+/// Lex `input` and return the `Debug` rendering of every token, or the lexer's error.
+pub fn lex_debug(input: &str) -> Result<Vec<String>, String> {
+    let span = nom_locate::LocatedSpan::new(input);
+    crate::parser::lex(span)
+        .map(|tokens| {
+            tokens
+                .iter()
+                .map(|token| format!("{:?}", token.as_token()))
+                .collect()
+        })
+        .map_err(|error| format!("{error:?}"))
+}
